@@ -25,6 +25,7 @@ CONSTANTS
   DefSuccessNonFinite = FALSE
   DefNaNCompare = FALSE
   DefSwapNs = FALSE
+  DefStaleFactor = FALSE
 CONSTRAINT RunsBound
 INVARIANT TypeOK
 INVARIANT C02_Budget
